@@ -63,9 +63,10 @@ theorem statement_is_given_the_complete_lines (F : Facts) (defsText queryText : 
 /-- **… all of them, once the reader has caught up**: a schedule that ends with as many polls as there were bytes
 pending has delivered EVERY complete line of the followed content -/
 theorem quiescent_schedule_delivers_every_complete_line (head : Bool) (initial : List Nat) (ops : List FollowOp) (ks : List Nat)
+    (hi : FollowOp.interrupt ∉ ops)
     (hn : pending (Props.C10.reached initial head followCap (readerOps ops)) ≤ ks.length) :
     deliveredBy head initial (ops ++ ks.map .poll) = completeLines (followedContent head initial ops) :=
-  deliveredBy_quiescent head initial ops ks hn
+  deliveredBy_quiescent head initial ops ks hi hn
 
 /-- **Chunking and polls are irrelevant** (C10): two uninterrupted schedules over the same start-up content that append
 the same bytes — cut into appends anywhere, polled anyhow — and both end caught up give the same answer: the same
@@ -81,7 +82,7 @@ theorem chunking_and_polls_are_irrelevant (F : Facts) (defsText queryText : List
   have n₁ : FollowOp.interrupt ∉ ops₁ ++ ks₁.map FollowOp.poll := by simp [hi₁]
   have n₂ : FollowOp.interrupt ∉ ops₂ ++ ks₂.map FollowOp.poll := by simp [hi₂]
   unfold followText
-  rw [deliveredBy_quiescent head initial ops₁ ks₁ hn₁, deliveredBy_quiescent head initial ops₂ ks₂ hn₂,
+  rw [deliveredBy_quiescent head initial ops₁ ks₁ hi₁ hn₁, deliveredBy_quiescent head initial ops₂ ks₂ hi₂ hn₂,
     interruptPoint_none _ _ _ n₁, interruptPoint_none _ _ _ n₂]
   unfold followedContent
   rw [hsame]
@@ -136,7 +137,7 @@ theorem follow_select_prints_batch_output (F : Facts) (defsText queryText : List
       | nil => intro c hc; cases hc
       | cons l rest => intro c hc; cases hc
   | some t =>
-    rw [followStatement_plain F tables _ fromTable t hg ls none (fun l hl => (hplain l hl).2.1),
+    rw [followStatement_plain F tables _ fromTable t hg ls (fun l hl => (hplain l hl).2.1),
       runStatement_wire F tables _ fromTable t hg ls hplain]
     split
     · rw [runFollowAllT_select_eq_runBatchT F.eval _ s rfl rfl none]
@@ -176,7 +177,7 @@ theorem follow_screen_is_batch_output (F : Facts) (defsText queryText : List Cha
   have hwf := Props.Pipeline.lowered_aggregate_is_wellformed _ _ _ a fromTable file none hq
   -- both runs in closed form
   rw [followLines_eq F defsText queryText fmt _ none defs _ tables (.aggregate a) fromTable none hc hd hp hq ht rfl,
-    followStatement_plain F tables _ fromTable t hg _ none (fun x hx => (hplain x hx).2.1)] at hf
+    followStatement_plain F tables _ fromTable t hg _ (fun x hx => (hplain x hx).2.1)] at hf
   rw [runText_eq_runLowered F defsText queryText fmt single _ defs _ hc hd hp hq,
     runLowered_eq_opt F defs _ fmt single _ tables (.aggregate a) fromTable none ht rfl,
     runStatement_wire F tables _ fromTable t hg _ hplain] at hb
@@ -215,7 +216,7 @@ theorem follow_screen_is_batch_output (F : Facts) (defsText queryText : List Cha
         followAnswerOf F fmt (some (.ran (runFollowAllT F.eval { stmt := .aggregate a, table := t.info, join := none } none
           (pre.map (extractedLine F t.defn))))) := by
       rw [followLines_eq F defsText queryText fmt _ none defs _ tables (.aggregate a) fromTable none hc hd hp hq ht rfl,
-        followStatement_plain F tables _ fromTable t hg _ none (fun x hx => (hplain' x hx).2.1), if_pos hcov']
+        followStatement_plain F tables _ fromTable t hg _ (fun x hx => (hplain' x hx).2.1), if_pos hcov']
     have hpre_ok : ∀ (hcalls : (runFollowAllT F.eval { stmt := .aggregate a, table := t.info, join := none } none
           (pre.map (extractedLine F t.defn))).calls <+:
         (runFollowAllT F.eval { stmt := .aggregate a, table := t.info, join := none } none
@@ -310,22 +311,19 @@ theorem shown_line_screen_is_batch_output (F : Facts) (defsText queryText : List
 
 /-! ### C19: an interrupt -/
 
-/-- **An interrupted follow run is the run over the lines delivered before the interrupt** (C19 at program level): the
-loop finds the flag cleared when it is handed the next line, so no further line is executed; the answer is the answer
-of the uninterrupted program over exactly the lines delivered before — unless the case lacks a fact about a LATER line
-(then the model answers `skip`; the real program never looks at that line) -/
+/-- **An interrupted follow run is the run over the lines delivered before the interrupt** (C19, on delivered lines):
+the loop finds the flag cleared when it is handed the next line, so no further line is executed (nor are facts about
+later lines needed); the answer is the answer of the uninterrupted program over exactly the first `k` delivered lines -/
 theorem interrupt_is_run_over_lines_delivered_before (F : Facts) (defsText queryText : List Char) (fmt : Print.Format)
     (dl : List (List Nat)) (k : Nat) :
-    followLines F defsText queryText fmt dl (some k) = .skip "line facts" ∨
     followLines F defsText queryText fmt dl (some k) = followLines F defsText queryText fmt (dl.take k) none := by
-  apply followLines_rel (fun x y => x = .skip "line facts" ∨ x = y) (fun _ => .inr rfl)
+  apply followLines_rel (fun x y => x = y) (fun _ => rfl)
   intro defs query tables stmt fromTable join _ _ _ _
   cases join with
-  | some j => right; rfl
+  | some j => rfl
   | none =>
     cases hg : getTable tables fromTable with
     | none =>
-      right
       unfold followStatement
       rw [hg]
       simp only [followNoTable, List.length_take]
@@ -340,16 +338,21 @@ theorem interrupt_is_run_over_lines_delivered_before (F : Facts) (defsText query
           | cons x rest => simp
     | some t =>
       rw [followStatement_defined F tables stmt fromTable dl _ t hg, followStatement_defined F tables stmt fromTable _ _ t hg]
-      cases hm : dl.mapM (mkFollowLine F t.defn) with
-      | none => left; rfl
+      simp only [handedLines]
+      cases hm : (dl.take k).mapM (mkFollowLine F t.defn) with
+      | none => rfl
       | some ls =>
-        right
-        rw [mapM_take _ dl ls k hm]
-        simp only [Option.map_some, runFollowAllT_stopAt]
+        simp only [Option.map_some]
+        rw [runFollowAllT_stopAt]
+        have hlen : ls.length ≤ k := by
+          have h1 := mapM_length _ _ _ hm
+          rw [h1, List.length_take]
+          exact Nat.min_le_left _ _
+        rw [List.take_of_length_le hlen]
 
 /-- **What an interrupted run has written is a prefix of what the uninterrupted run writes, and the interrupt adds no
-error** (C19 at program level): with `.ran e w` the answer when the flag is found cleared after `k` delivered lines and
-`.ran e' w'` the answer without interrupt, `w` is a prefix of `w'` — for an aggregate statement a prefix of the
+error** (C19, on delivered lines): with `.ran e w` the answer when the flag is found cleared after `k` delivered lines
+and `.ran e' w'` the answer without interrupt, `w` is a prefix of `w'` — for an aggregate statement a prefix of the
 sequence of screens, each complete — and either the interrupted run ended `Ok`, or it had already ended on its own
 with the very error (and output) of the uninterrupted run. -/
 theorem interrupted_output_is_a_prefix (F : Facts) (defsText queryText : List Char) (fmt : Print.Format)
@@ -395,15 +398,25 @@ theorem interrupted_output_is_a_prefix (F : Facts) (defsText queryText : List Ch
           · right; constructor <;> first | rfl | trivial
     | some t =>
       rw [followStatement_defined F tables stmt fromTable dl _ t hg] at ht1 ht2
+      simp only [handedLines] at ht1 ht2
       cases hm : dl.mapM (mkFollowLine F t.defn) with
-      | none => rw [hm] at ht1; cases ht1
+      | none => rw [hm] at ht2; cases ht2
       | some ls =>
-        rw [hm] at ht1 ht2
+        rw [hm] at ht2
+        rw [mapM_take _ dl ls k hm] at ht1
         simp only [Option.map_some, Option.some.injEq, FollowRun.ran.injEq] at ht1 ht2
         subst ht1; subst ht2
         rw [hw1, hw2, he1, he2]
-        refine ⟨termItems_prefix _ _ _ (runFollowAllT_calls_prefix F.eval _ k ls), ?_⟩
-        rw [runFollowAllT_stopAt]
+        have hst : runFollowAllT F.eval { stmt := stmt, table := t.info, join := none } (some k) (ls.take k) =
+            runFollowAllT F.eval { stmt := stmt, table := t.info, join := none } none (ls.take k) := by
+          rw [runFollowAllT_stopAt, List.take_take, Nat.min_self]
+        rw [hst]
+        have hpre : (runFollowAllT F.eval { stmt := stmt, table := t.info, join := none } none (ls.take k)).calls <+:
+            (runFollowAllT F.eval { stmt := stmt, table := t.info, join := none } none ls).calls := by
+          have := runFollowAllT_calls_prefix F.eval { stmt := stmt, table := t.info, join := none } k ls
+          rw [runFollowAllT_stopAt] at this
+          exact this
+        refine ⟨termItems_prefix _ _ _ hpre, ?_⟩
         cases hx : (runFollowAllT F.eval { stmt := stmt, table := t.info, join := none } none (ls.take k)).out.error with
         | none => left; rfl
         | some kind =>
@@ -412,6 +425,62 @@ theorem interrupted_output_is_a_prefix (F : Facts) (defsText queryText : List Ch
             (by simp [hasFailed, hx])
           rw [this] at hx ⊢
           exact ⟨hx.symm ▸ rfl, rfl⟩
+
+/-- **The interrupt of a schedule** (C19 over `followText`). `pre` is a schedule without interrupt; then the user
+interrupts; `rest` is whatever happens afterwards (appends, polls, further interrupts). What had been delivered stays
+delivered, the flag is found cleared after exactly the lines `pre` had delivered, and the answer of the program is the
+answer of the program over the schedule `pre` alone: no further input line is executed, everything written is what had
+been written when the interrupt came, no error is added. -/
+theorem interrupted_follow_run_is_the_run_so_far (F : Facts) (defsText queryText : List Char) (fmt : Print.Format) (head : Bool)
+    (initial : List Nat) (pre rest : List FollowOp) (hi : FollowOp.interrupt ∉ pre) :
+    deliveredBy head initial pre <+: deliveredBy head initial (pre ++ FollowOp.interrupt :: rest) ∧
+    interruptPoint head initial (pre ++ FollowOp.interrupt :: rest) = some (deliveredBy head initial pre).length ∧
+    followText F defsText queryText fmt head initial (pre ++ FollowOp.interrupt :: rest) =
+      followText F defsText queryText fmt head initial pre := by
+  have hp := deliveredBy_stable head initial pre (FollowOp.interrupt :: rest) hi
+  have hk := interruptPoint_split head initial pre rest hi
+  refine ⟨hp, hk, ?_⟩
+  unfold followText
+  rw [hk, interruptPoint_none head initial pre hi, interrupt_is_run_over_lines_delivered_before,
+    ← List.prefix_iff_eq_take.1 hp]
+
+/-- **… against the uninterrupted schedule** (C19 over `followText`): with `.ran e w` the answer of the interrupted
+schedule `pre ++ interrupt :: rest` and `.ran e' w'` the answer of the same schedule without the interrupt,
+`pre ++ rest`: `w` is a prefix of `w'` (for an aggregate statement: a prefix of its sequence of complete screens) and the
+interrupted run ended `Ok` — or had already ended on its own, with the error and the output of the uninterrupted run. -/
+theorem interrupted_follow_output_is_a_prefix (F : Facts) (defsText queryText : List Char) (fmt : Print.Format) (head : Bool)
+    (initial : List Nat) (pre rest : List FollowOp) (hi : FollowOp.interrupt ∉ pre) (hr : FollowOp.interrupt ∉ rest)
+    (e e' : Option ErrKind) (w w' : List TermItem)
+    (h1 : followText F defsText queryText fmt head initial (pre ++ FollowOp.interrupt :: rest) = .ran e w)
+    (h2 : followText F defsText queryText fmt head initial (pre ++ rest) = .ran e' w') :
+    w <+: w' ∧ (e = none ∨ (e = e' ∧ w = w')) := by
+  rw [(interrupted_follow_run_is_the_run_so_far F defsText queryText fmt head initial pre rest hi).2.2] at h1
+  have hp := deliveredBy_stable head initial pre rest hi
+  have hn : FollowOp.interrupt ∉ pre ++ rest := by simp [hi, hr]
+  unfold followText at h1 h2
+  rw [interruptPoint_none head initial pre hi] at h1
+  rw [interruptPoint_none head initial _ hn] at h2
+  rw [List.prefix_iff_eq_take.1 hp, ← interrupt_is_run_over_lines_delivered_before] at h1
+  exact interrupted_output_is_a_prefix F defsText queryText fmt _ _ e e' w w' h1 h2
+
+/-- **An interrupted follow run returns** (C19 "stops promptly", in the model; /repo caa9e23 = the repair of D70). After
+the interrupt the iterator looks at the flag whenever it finds no complete line: if the schedule goes on with more polls
+than there were bytes pending — the file may stay idle for ever —, `next()` has returned `None`, `execute` has returned
+`Ok`, and the answer is the one of `interrupted_follow_run_is_the_run_so_far`. (The schedule model has no time: "promptly"
+is "within the polls that drain what is pending, plus one"; before caa9e23 the iterator never looked at the flag and
+`iteratorEnded` would be false on every idle continuation.) -/
+theorem interrupted_follow_run_returns (F : Facts) (defsText queryText : List Char) (fmt : Print.Format) (head : Bool)
+    (initial : List Nat) (pre : List FollowOp) (ks : List Nat) (hi : FollowOp.interrupt ∉ pre)
+    (hn : pending (Props.C10.reached initial head followCap (readerOps pre)) < ks.length) :
+    iteratorEnded head initial (pre ++ FollowOp.interrupt :: ks.map FollowOp.poll) = true ∧
+    interruptedRunReturned head initial (pre ++ FollowOp.interrupt :: ks.map FollowOp.poll) = true ∧
+    followText F defsText queryText fmt head initial (pre ++ FollowOp.interrupt :: ks.map FollowOp.poll) =
+      followText F defsText queryText fmt head initial pre := by
+  have h := iteratorEnded_after_interrupt head initial pre ks hi hn
+  refine ⟨h, ?_, (interrupted_follow_run_is_the_run_so_far F defsText queryText fmt head initial pre _ hi).2.2⟩
+  unfold interruptedRunReturned
+  rw [h]
+  rfl
 
 /-! ### C06: lines that yield no row -/
 
@@ -430,6 +499,7 @@ theorem follow_noise_lines_invisible (F : Facts) (defsText queryText : List Char
   | some j => rfl
   | none =>
     rw [followStatement_defined F tables stmt fromTable _ _ t ht, followStatement_defined F tables stmt fromTable _ _ t ht]
+    simp only [handedLines]
     rcases mapM_noise F t.defn a ns b hnoise with ⟨h1, h2⟩ | ⟨x, y, h1, h2, h3⟩
     · rw [h1, h2]
     · rw [h1, h2]
